@@ -172,9 +172,9 @@ def wf_table(rng, sep, transposed=None, kinds=None, n_row=None):
     for nm, k in zip(names, kinds):
         v = cols[nm]
         if k == "text":
-            data[nm] = np.array(v, dtype=object) if v else np.array([], dtype=object)
-            if rng.random() < 0.3:
-                data[nm] = pd.array(list(v), dtype="str")      # pandas 3's own string dtype
+            # half of the text columns are held as object (a frame built from an object array would be inferred as
+            # `str` by pandas 3: a Series with an explicit dtype is not), half in pandas 3's own string dtype
+            data[nm] = pd.Series(list(v), dtype=object) if rng.random() < 0.5 else pd.array(list(v), dtype="str")
         elif k == "onoff":
             data[nm] = np.array(v, dtype=bool)
         elif k == "int":
